@@ -137,8 +137,13 @@ package stage
 //@   loop 0 invariant -1 <= rangeindex && rangeindex < len(parts) && n == rangeindex + 1
 //@   loop 0 backedge assert counted-only-if-received: called((*Stage).partReceived) && lastret((*Stage).partReceived, 0) && lastarg((*Stage).partReceived, 1) == part
 
-//@ func (*Stage).buildCache trusted
+//@ func (*Stage).buildCache$1 inline
+// the Parse handler is verified in the context of buildCache
+//@ func (*Stage).buildCache
 //@   modifies everything
+//@   before mapupdate cache assert log-refill-never-overwrites: !has(s.cache, arg1) && arg1 == pathjoin(s.rootDir, name) && arg2.state == stateLogged && arg2.hash == hash && arg2.name == name && arg2.path == arg1 && arg2.logged == t
+//@   before call sts.ReceiveLogger.Parse assert refill-window: arg2 == from && from != 0 && !(s.cacheTime != 0 && s.cacheTime <= from) && (s.cacheTime != 0 ==> arg3 == s.cacheTime) && exclusive(&s.cacheLock)
+//@   on return assert window-is-recorded: called(sts.ReceiveLogger.Parse) ==> s.cacheTime == from
 //@ func (*Stage).delPathLock
 //@   modifies s.pathLocks, entries(s.pathLocks), s.lastIn
 //@ func (*Stage).getPathLock
